@@ -181,10 +181,13 @@ class kMinPathErrorCycles(walkmodel.AbstractWalkModelDiGraph):
                 raise ValueError(f"you cannot set elements_to_ignore when elements_to_ignore_percentile is set.")
 
             # Select edges where the flow_attr value is >= elements_to_ignore_percentile (using self.G)
-            flow_values = [self.G.edges[edge][flow_attr] for edge in self.G.edges() if flow_attr in self.G.edges[edge]]
+            # (the edges the node expansion already ignores, e.g. connecting edges that inherited an attribute of the same name
+            # from the caller's edge data, carry no weights: they take no part in the percentile)
+            already_ignored = set(edges_to_ignore_internal)
+            flow_values = [self.G.edges[edge][flow_attr] for edge in self.G.edges() if flow_attr in self.G.edges[edge] and edge not in already_ignored]
             percentile = np.percentile(flow_values, elements_to_ignore_percentile) if flow_values else 0
             # (kept in addition to the edges the node expansion already ignores)
-            edges_to_ignore_internal = list(edges_to_ignore_internal) + [edge for edge in self.G.edges() if flow_attr in self.G.edges[edge] and self.G.edges[edge][flow_attr] < percentile]
+            edges_to_ignore_internal = list(edges_to_ignore_internal) + [edge for edge in self.G.edges() if flow_attr in self.G.edges[edge] and edge not in already_ignored and self.G.edges[edge][flow_attr] < percentile]
 
         utils.logger.debug(f"{__name__}: edges_to_ignore_internal set to {edges_to_ignore_internal}")
 
